@@ -20,11 +20,13 @@ func pagerHTML(g *docGen, style string, n, k int) string {
 	if k > 1 {
 		sb.WriteString(fmt.Sprintf(`<a href="%s">Prev</a> `, pagerURL(style, k-1)))
 	}
+	// many themes put a label for screen readers next to the number
+	label := g.pick("", "", "", `<span class="screen-reader-text">Page </span>`, `<span class="sr-only">Page</span> `, `<span class="visually-hidden">page </span>`)
 	for i := 1; i <= n; i++ {
 		if i == k {
 			sb.WriteString(fmt.Sprintf("<strong>%d</strong> ", i))
 		} else {
-			sb.WriteString(fmt.Sprintf(`<a href="%s">%d</a> `, pagerURL(style, i), i))
+			sb.WriteString(fmt.Sprintf(`<a href="%s">%s%d</a> `, pagerURL(style, i), label, i))
 		}
 	}
 	if k < n {
@@ -118,7 +120,10 @@ func richDoc(id int, g *docGen) string {
 			"<div>" + story(1) + `<img src="/i/m3.png" srcset="/i/m3-a.png 480w, /i/m3-b.png 800w">` + story(2) + `<span class="lazy-image-placeholder" data-src="/i/m4.png"></span>` +
 			// several lazy-loading attributes on one image: the first of the documented order wins, every time
 			`<img data-url="/i/m5c.png" data-original="/i/m5b.png" data-src="/i/m5a.png" src="data:image/gif;base64,R0lGOD">` +
-			`<img datasrc="/i/m6b.png" data-url="/i/m6c.png" datasrcset="/i/m6e.png 2x" data-srcset="/i/m6d.png 2x">` + story(1) + `</div>`)
+			`<img datasrc="/i/m6b.png" data-url="/i/m6c.png" datasrcset="/i/m6e.png 2x" data-srcset="/i/m6d.png 2x">` + story(1) +
+			// lazy images every reader of the page is interested in: captioned, or large
+			`<figure><img src="data:image/gif;base64,R0lGOD" data-src="/i/m7.png"><figcaption>` + g.words(5) + `</figcaption></figure>` +
+			`<img width="800" height="450" src="/i/blank.gif" data-original="/i/m8.png" data-srcset="/i/m8-2x.png 2x">` + story(1) + `</div>`)
 	case 7: // tables: nested, roles, editable
 		body.WriteString("<div>" + story(2) + `<table role="grid"><tr><td>` + g.words(2) + `</td><td>` + g.words(2) + `</td></tr><tr><td>` + g.words(2) + `</td><td><table><tr><td>` + g.words(2) + `</td></tr></table></td></tr></table>` +
 			`<div contenteditable="true"><table><caption>` + g.words(2) + `</caption><tr><td>a</td><td>b</td></tr><tr><td>c</td><td>d</td></tr></table></div>` + story(1) + "</div>")
